@@ -1,3 +1,4 @@
+import PmtilesModel.Proofs.ZoomRange
 import PmtilesModel.Proofs.Convert
 import PmtilesModel.Proofs.Clustered
 import PmtilesModel.Proofs.WriterVerifies
@@ -86,5 +87,19 @@ theorem convert_output_verifies (dedup : Bool) (rows : List Row) (henc : ∀ b, 
     Pm.Verify.entryLoop (run enc (init dedup) (convertAdds rows)).data.length true [] 0
       (run enc (init dedup) (convertAdds rows)).rev.reverse = false :=
   run_verifies enc dedup (convertAdds rows) (fun a ha => henc a.2.1 (convertAdds_nonempty rows a ha))
+
+/-- **the header's zoom range is that of the addressed tiles** (with the D24 fix): for the ascending,
+    non-overlapping entry list the resolver writes, the zoom of every addressed tile lies between the
+    `MinZoom` and the `MaxZoom` that `finalize` stores, the first of which is the zoom of the first tile and
+    the second the zoom of the LAST tile of the last entry's run -/
+theorem convert_zoom_range (h : Header.Header) (entries : List Entry) (hasc : Finalize.Asc entries)
+    (e : Entry) (he : e ∈ entries) (t : Nat) (ht : Finalize.addresses e t) :
+    (Finalize.setZoomCenterDefaults h entries).minZoom ≤ TileId.goZoom t ∧
+      TileId.goZoom t ≤ (Finalize.setZoomCenterDefaults h entries).maxZoom :=
+  Finalize.zoom_range_covers h entries hasc e he t ht
+
+/-- non-vacuity (test): a three-entry list whose last run crosses from zoom 1 into zoom 2 is `Asc` -/
+example : Finalize.Asc [⟨0, 0, 3, 1⟩, ⟨1, 3, 2, 2⟩, ⟨4, 5, 2, 3⟩] := by
+  simp only [Finalize.Asc]; decide
 
 end Pm.C06
